@@ -44,15 +44,15 @@ Definition count_rel (s : list (T N)) (thr : T N) : nat :=
 Definition keep_rel (s : list (T N)) (thr : T N) (minb maxb : nat) : nat :=
   Nat.min (Nat.max (Nat.min (count_rel s thr) maxb) minb) (length s).
 
-(* two_site_svd: discard += s**2; if discard >= thr: keep = max(len-idx, 2); break *)
-Fixpoint tss_loop (rev_s : list (T N)) (idx len : nat) (discard thr : T N) : nat :=
+(* two_site_svd: min_keep = min(len, min_bond_dim); discard += s**2; if discard >= thr: keep = max(len-idx, min_keep); break *)
+Fixpoint tss_loop (rev_s : list (T N)) (idx len : nat) (discard thr : T N) (mk : nat) : nat :=
   match rev_s with
   | [] => len
   | s :: r => let nd := discard +' (s *' s) in
-      if leb N thr nd then Nat.max (len - idx) 2 else tss_loop r (S idx) len nd thr
+      if leb N thr nd then Nat.max (len - idx) mk else tss_loop r (S idx) len nd thr mk
   end.
-Definition keep_tss (s : list (T N)) (thr : T N) (maxb : option nat) : nat :=
-  let k := tss_loop (rev s) 0 (length s) (zero N) thr in
+Definition keep_tss (s : list (T N)) (thr : T N) (minb : nat) (maxb : option nat) : nat :=
+  let k := tss_loop (rev s) 0 (length s) (zero N) thr (Nat.min (length s) minb) in
   match maxb with Some m => Nat.min k m | None => k end.
 
 (* truncated_right_svd: cut_index = 1 unless the cumulative weight reaches thr *)
